@@ -196,7 +196,8 @@ include S
 
 theorem exact_optimizeExpr (e : Expr) (h : noAndSpine e = true) :
     ExactP (fun k => ev e k = true) (optimizeExpr e) := by
-  fun_induction optimizeExpr e
+  unfold optimizeExpr
+  fun_induction infer e
   case case1 => simp [noAndSpine] at h
   case case2 => simp [noAndSpine] at h
   case case3 p l r ihl ihr =>
@@ -213,6 +214,7 @@ theorem exact_optimizeExpr (e : Expr) (h : noAndSpine e = true) :
     rw [e]; exact this
   case case5 => exact prefix_exact _ _
   case case6 p l r =>
+    show ExactP _ (optimizeEqualExpr l r)
     unfold optimizeEqualExpr
     split
     · rename_i d hd
@@ -225,45 +227,58 @@ theorem exact_optimizeExpr (e : Expr) (h : noAndSpine e = true) :
         · intro hk; simp [S.eq_l _ _ _ _ _ hk]
         · intro hk; simp only [List.mem_singleton] at hk; subst hk; exact S.eq_l_conv _ _ _ _
     · trivial
-  case case7 p l r hs =>   -- 'lit' > key
-    refine ltlte_exact ?_ (by intro _ hop; simp at hop)
-    intro hd _ k hk
-    rcases operands_key hd with ⟨p1, p2, rfl, rfl⟩ | ⟨p1, p2, rfl, rfl⟩
-    · simp [isStr] at hs
-    · exact absurd (S.gt_l _ _ _ _ _ hk) (List.not_lt_nil k)
-  case case8 => exact gtgte_exact _ _
-  case case9 p l r hs =>   -- 'lit' >= key
-    refine ltlte_exact (by intro _ hop; simp at hop) ?_
-    intro hd _ k
-    rcases operands_key hd with ⟨p1, p2, rfl, rfl⟩ | ⟨p1, p2, rfl, rfl⟩
-    · simp [isStr] at hs
-    · constructor
-      · intro hk
-        have h1 := S.gte_l _ _ _ _ _ hk
-        have h2 := Bytes.nil_le k
-        exact List.le_antisymm h1 h2
-      · intro hk; subst hk; exact S.gte_l_conv _ _ _ _ _ (List.le_refl _)
-  case case10 => exact gtgte_exact _ _
-  case case11 => exact gtgte_exact _ _
-  case case12 p l r hs =>  -- key < 'lit'
-    refine ltlte_exact ?_ (by intro _ hop; simp at hop)
-    intro hd _ k hk
-    rcases operands_key hd with ⟨p1, p2, rfl, rfl⟩ | ⟨p1, p2, rfl, rfl⟩
-    · exact absurd (S.lt_r _ _ _ _ _ hk) (List.not_lt_nil k)
-    · simp [isStr] at hs
-  case case13 => exact gtgte_exact _ _
-  case case14 p l r hs =>  -- key <= 'lit'
-    refine ltlte_exact (by intro _ hop; simp at hop) ?_
-    intro hd _ k
-    rcases operands_key hd with ⟨p1, p2, rfl, rfl⟩ | ⟨p1, p2, rfl, rfl⟩
-    · constructor
-      · intro hk
-        have h1 := S.lte_r _ _ _ _ _ hk
-        have h2 := Bytes.nil_le k
-        exact List.le_antisymm h1 h2
-      · intro hk; subst hk; exact S.lte_r_conv _ _ _ _ _ (List.le_refl _)
-    · simp [isStr] at hs
-  case case15 p l r =>
+  case case7 p l r =>
+    show ExactP _ (if isStr l = true then _ else _)
+    split
+    · rename_i hs   -- 'lit' > key
+      refine ltlte_exact ?_ (by intro _ hop; simp at hop)
+      intro hd _ k hk
+      rcases operands_key hd with ⟨p1, p2, rfl, rfl⟩ | ⟨p1, p2, rfl, rfl⟩
+      · simp [isStr] at hs
+      · exact absurd (S.gt_l _ _ _ _ _ hk) (List.not_lt_nil k)
+    · exact gtgte_exact _ _
+  case case8 p l r =>
+    show ExactP _ (if isStr l = true then _ else _)
+    split
+    · rename_i hs   -- 'lit' >= key
+      refine ltlte_exact (by intro _ hop; simp at hop) ?_
+      intro hd _ k
+      rcases operands_key hd with ⟨p1, p2, rfl, rfl⟩ | ⟨p1, p2, rfl, rfl⟩
+      · simp [isStr] at hs
+      · constructor
+        · intro hk
+          have h1 := S.gte_l _ _ _ _ _ hk
+          have h2 := Bytes.nil_le k
+          exact List.le_antisymm h1 h2
+        · intro hk; subst hk; exact S.gte_l_conv _ _ _ _ _ (List.le_refl _)
+    · exact gtgte_exact _ _
+  case case9 p l r =>
+    show ExactP _ (if isStr l = true then _ else _)
+    split
+    · exact gtgte_exact _ _
+    · rename_i hs  -- key < 'lit'
+      refine ltlte_exact ?_ (by intro _ hop; simp at hop)
+      intro hd _ k hk
+      rcases operands_key hd with ⟨p1, p2, rfl, rfl⟩ | ⟨p1, p2, rfl, rfl⟩
+      · exact absurd (S.lt_r _ _ _ _ _ hk) (List.not_lt_nil k)
+      · simp [isStr] at hs
+  case case10 p l r =>
+    show ExactP _ (if isStr l = true then _ else _)
+    split
+    · exact gtgte_exact _ _
+    · rename_i hs  -- key <= 'lit'
+      refine ltlte_exact (by intro _ hop; simp at hop) ?_
+      intro hd _ k
+      rcases operands_key hd with ⟨p1, p2, rfl, rfl⟩ | ⟨p1, p2, rfl, rfl⟩
+      · constructor
+        · intro hk
+          have h1 := S.lte_r _ _ _ _ _ hk
+          have h2 := Bytes.nil_le k
+          exact List.le_antisymm h1 h2
+        · intro hk; subst hk; exact S.lte_r_conv _ _ _ _ _ (List.le_refl _)
+      · simp [isStr] at hs
+  case case11 p l r =>
+    show ExactP _ (optimizeInExpr l r)
     unfold optimizeInExpr
     dsimp only
     split
@@ -277,7 +292,8 @@ theorem exact_optimizeExpr (e : Expr) (h : noAndSpine e = true) :
         exact ⟨S.in_ _ _ _ items k hcan, S.in_conv _ _ _ items k hcan⟩
       · trivial
     · simp [ExactP]
-  case case16 p l r =>
+  case case12 p l r =>
+    show ExactP _ (optimizeBetweenExpr l r)
     unfold optimizeBetweenExpr
     dsimp only
     split
@@ -299,13 +315,13 @@ theorem exact_optimizeExpr (e : Expr) (h : noAndSpine e = true) :
             exact S.between_conv _ _ _ _ _ _ _ _ (List.le_refl _) (List.le_refl _)
       · trivial
     · trivial
-  case case17 => trivial
-  case case18 => trivial
-  case case19 pos data b hb =>
-    have hb' : b = false := by simpa using hb
-    subst hb'
-    intro k; simp [S.false_]
-  case case20 => trivial
+  case case13 => trivial
+  case case14 pos data b =>
+    show ExactP _ (if b = true then Scan.full else Scan.empty)
+    cases b
+    · intro k; simp [S.false_]
+    · trivial
+  case case15 => trivial
 
 /-- `delete_shortcut_exact`: no `&`/`and` on the way down and an MGET inferred — then the filter
     holds on a key if and only if the key is in the list (for every pair with that key: the
